@@ -232,6 +232,18 @@ func (s *Session) Do(op string) string {
 		return PtrStr(s.h(int(a[1])))
 	case "rlimit":
 		return "N" + strconv.FormatUint(s.M.VerifReadLimit(), 10)
+	case "setlimit":
+		// Message.ResetReadLimit(limit): the application sets the remaining budget (ReadOps.OResetLimit)
+		return Safely(func() string {
+			s.M.ResetReadLimit(uint64(a[1]))
+			return "N" + strconv.FormatUint(s.M.VerifReadLimit(), 10)
+		})
+	case "unread":
+		// Message.Unread(sz): the application gives budget back (ReadOps.OUnread)
+		return Safely(func() string {
+			s.M.Unread(capnp.Size(uint32(a[1])))
+			return "N" + strconv.FormatUint(s.M.VerifReadLimit(), 10)
+		})
 	case "reset":
 		// Message.Reset to a fresh arena holding the same bytes (a message value reused for the
 		// next message): every handle is dropped; the observation is the re-armed budget
